@@ -66,6 +66,17 @@ CTL_MUTS.update({
  'mc_no_state_guard': (F, "    if not isinstance(formula, StateFormula):\n        raise TypeError('expected a CTL state formula, got {}'.format(formula))", "    if False:\n        raise TypeError('expected a CTL state formula, got {}'.format(formula))", ['modelcheck']),
  'mc_returns_states': (F, "    return _checkStateFormula(kripke, formula, L=dict())", "    _checkStateFormula(kripke, formula, L=dict())\n    return kripke.S0", ['modelcheck']),
 })
+CTL_MUTS.update({
+ 'eg_trivial_components': (F, "            if len(scc) > 1 or v in subgraph.next(v):", "            if len(scc) >= 1 or v in subgraph.next(v):", ['_checkEG']),
+ 'eg_big_components_only': (F, "            if len(scc) > 1 or v in subgraph.next(v):", "            if len(scc) > 2 or v in subgraph.next(v):", ['_checkEG']),
+ 'eg_no_self_loop': (F, "            if len(scc) > 1 or v in subgraph.next(v):", "            if len(scc) > 1:", ['_checkEG']),
+ 'eg_and': (F, "            if len(scc) > 1 or v in subgraph.next(v):", "            if len(scc) > 1 and v in subgraph.next(v):", ['_checkEG']),
+ 'eg_no_reverse': (F, "        subgraph = kripke.get_subgraph(Lphi)\n        subgraph = subgraph.get_reversed_graph()", "        subgraph = kripke.get_subgraph(Lphi)", ['_checkEG']),
+ 'eg_no_reach': (F, "        L[formula] = subgraph.get_reachable_set_from(T)", "        L[formula] = T", ['_checkEG']),
+ 'eg_whole_structure': (F, "        subgraph = kripke.get_subgraph(Lphi)\n        subgraph = subgraph.get_reversed_graph()", "        subgraph = kripke.get_subgraph(kripke.states())\n        subgraph = subgraph.get_reversed_graph()", ['_checkEG']),
+ 'eg_wrong_operand': (F, "        Lphi = _checkStateFormula(kripke, p_formula.subformula(0), L)\n\n        subgraph = kripke.get_subgraph(Lphi)\n        subgraph = subgraph.get_reversed_graph()\n        SCCs", "        Lphi = _checkStateFormula(kripke, p_formula.subformula(0), L)\n\n        subgraph = kripke.get_subgraph(Lphi)\n        subgraph = subgraph.get_reversed_graph().get_reversed_graph()\n        SCCs", ['_checkEG']),
+ 'eg_memo_wrong_key': (F, "        L[formula] = subgraph.get_reachable_set_from(T)", "        L[p_formula.subformula(0)] = subgraph.get_reachable_set_from(T)\n        L[formula] = L[p_formula.subformula(0)]", ['_checkEG']),
+})
 
 C = 'CTLS/language.py'
 Lg = 'language.py'
